@@ -22,10 +22,10 @@ from typing import Any
 
 from ..engine.normalize import positional
 from ..engine.report import AnalysisError, Run
-from ..engine.resolver import FuncInfo, Program, contains_await
+from ..engine.resolver import FuncInfo, Program, contains_await, walk_no_nested
 from ..engine.sympath import Effect, Path, SymUnsupported
 from ..engine.util import u
-from ._c14_util import HelperGraph, Walk, effect_target, seg, splice
+from ._c14_util import HelperGraph, Walk, callback_target, effect_target, seg, splice
 
 MOD = "microgrid._power_distributing.power_distributing"
 ACTOR = f"{MOD}:PowerDistributingActor"
@@ -33,7 +33,7 @@ PROC = "self._processing_tasks"
 PEND = "self._pending_requests"
 RECV = "self._requests_receiver"
 MANAGER = "self._component_manager"
-ANCHORS = ("_run", "_handle_task_completion", "_process_request")
+STARTER_HINT, HANDLER_HINT = "_process_request", "_handle_task_completion"   # names are only a hint
 STATE_ATTRS = ("_processing_tasks", "_pending_requests")
 
 
@@ -111,13 +111,79 @@ def _dels(p: Path, attr: str) -> list[Effect]:
     return [e for e in p.effects if e.kind == "del" and _mentions(u(e.node), attr)]
 
 
+def bind_roles(prog: Program) -> tuple[str, str]:
+    """(starter, handler): the two private methods of the actor the rules are about, bound by role.
+
+    starter  the method that -- itself or through private helpers it calls -- creates a task around
+             `<manager>.distribute_power(...)`, attaches a done-callback and stores into
+             self._processing_tasks[...]; of several such methods the innermost one (the completion
+             handler and the request loop reach the same code *through* it).
+    handler  the method the starter's `add_done_callback(...)` argument ends up calling.
+    The historical names decide only when the structure leaves a choice."""
+    cls = prog.cls(ACTOR)
+    feats: dict[str, set[str]] = {}
+    calls: dict[str, set[str]] = {}
+    cb_args: dict[str, list[tuple[ast.AST, dict[str, ast.FunctionDef]]]] = {}
+    for m in cls.methods.values():
+        f: set[str] = set()
+        nested = {n.name: n for n in ast.walk(m.node) if isinstance(n, ast.FunctionDef) and n is not m.node}
+        for n in walk_no_nested(m.node):
+            if isinstance(n, ast.Call):
+                last = u(n.func).split(".")[-1]
+                if last in ("distribute_power", "create_task", "add_done_callback"):
+                    f.add(last)
+                if last == "add_done_callback" and len(n.args) + len(n.keywords) == 1:
+                    cb_args.setdefault(m.name, []).append(((n.args + [k.value for k in n.keywords])[0], nested))
+                if isinstance(n.func, ast.Attribute) and isinstance(n.func.value, ast.Name) \
+                        and n.func.value.id in ("self", "cls", cls.name) and n.func.attr in cls.methods:
+                    calls.setdefault(m.name, set()).add(n.func.attr)
+            elif isinstance(n, ast.Subscript) and isinstance(n.ctx, ast.Store) and u(n.value) == PROC:
+                f.add("register")
+        feats[m.name] = f
+
+    def closure(name: str) -> set[str]:
+        out, work = {name}, [name]
+        while work:
+            for c in calls.get(work.pop(), ()):
+                if c not in out:
+                    out.add(c)
+                    work.append(c)
+        return out
+
+    want = {"distribute_power", "create_task", "add_done_callback", "register"}
+    cands = [m for m in cls.methods if m not in ("_run", "__init__")
+             and want <= set().union(*(feats[x] for x in closure(m)))]
+    inner = [m for m in cands if not any(o != m and o in closure(m) for o in cands)]
+    if STARTER_HINT in cands:
+        starter = STARTER_HINT
+    elif len(inner) == 1:
+        starter = inner[0]
+    else:
+        raise AnalysisError(f"{ACTOR}: {len(inner)} methods play the role of {STARTER_HINT} (create the distribution "
+                            "task, attach its done-callback and register it as in flight)")
+    targets = {t for m in closure(starter) for cb, nested in cb_args.get(m, [])
+               for t in [callback_target(cb, nested)] if t in cls.methods}
+    if len(targets) == 1:
+        handler = next(iter(targets))
+    elif HANDLER_HINT in cls.methods and (not targets or HANDLER_HINT in targets):
+        handler = HANDLER_HINT
+    else:
+        raise AnalysisError(f"{ACTOR}: {len(targets)} methods play the role of {HANDLER_HINT} (the done-callback of the "
+                            "distribution task)")
+    if handler == starter:
+        raise AnalysisError(f"{ACTOR}: the distribution task's done-callback is the starter itself")
+    return starter, handler
+
+
 class Ctx:
-    def __init__(self) -> None:
+    def __init__(self, prog: Program) -> None:
         self.unfollowed: set[str] = set()
+        self.starter, self.handler = bind_roles(prog)
+        self.anchors: tuple[str, ...] = ("_run", self.handler, self.starter)
 
 
 def _walk(prog: Program, fn: FuncInfo, ctx: Ctx) -> Walk:
-    w = Walk(prog, fn)
+    w = Walk(prog, fn, anchors=ctx.anchors)
     ctx.unfollowed |= w.ex.unfollowed
     return w
 
@@ -139,8 +205,8 @@ def _agg(run: Run, rule: str, fn: FuncInfo, what: str, msg: str, bad: list[tuple
 
 # --------------------------------------------------------------------------------------------- REG
 def check_reg(run: Run, prog: Program, ctx: Ctx) -> None:  # noqa: C901
-    fn = prog.func(f"{ACTOR}._process_request")
-    handler = prog.func(f"{ACTOR}._handle_task_completion")
+    fn = prog.func(f"{ACTOR}.{ctx.starter}")
+    handler = prog.func(f"{ACTOR}.{ctx.handler}")
     run.analysed(fn.qual)
     if len(fn.params) < 3 or len(handler.params) < 4:
         raise AnalysisError(f"{fn.qual}: signature (self, key, request) / (self, key, request, task) not found")
@@ -171,12 +237,12 @@ def check_reg(run: Run, prog: Program, ctx: Ctx) -> None:  # noqa: C901
             tpar = (da.posonlyargs + da.args)[0].arg
             body = stmts[0].value
         elif isinstance(cb, ast.Call) and u(cb.func).split(".")[-1] == "partial" and cb.args \
-                and u(cb.args[0]) == "self._handle_task_completion":
+                and u(cb.args[0]) == f"self.{ctx.handler}":
             a = _bound(ast.Call(func=cb.args[0], args=cb.args[1:], keywords=cb.keywords), hp)
             return a == {hp[0]: key, hp[1]: req}
         else:
             return False
-        if body is None or not _is_self_call(body, "_handle_task_completion"):
+        if body is None or not _is_self_call(body, ctx.handler):
             return False
         return _bound(body, hp) == {hp[0]: key, hp[1]: req, hp[2]: tpar}
 
@@ -241,7 +307,7 @@ def check_reg(run: Run, prog: Program, ctx: Ctx) -> None:  # noqa: C901
 # --------------------------------------------------------------------------------------------- _run
 def check_run(run: Run, prog: Program, ctx: Ctx) -> None:  # noqa: C901
     fn = prog.func(f"{ACTOR}._run")
-    proc = prog.func(f"{ACTOR}._process_request")
+    proc = prog.func(f"{ACTOR}.{ctx.starter}")
     run.analysed(fn.qual)
     w = _walk(prog, fn, ctx)
     pp = proc.params[1:3]
@@ -297,7 +363,7 @@ def check_run(run: Run, prog: Program, ctx: Ctx) -> None:  # noqa: C901
             if not (e.node.func.attr in ("get", "keys") and u(e.node.func.value) == PROC):  # type: ignore[attr-defined]
                 bad["touch"].append((p, e.node))
         # ---- bookkeeping of this path
-        starts = p.calls(lambda c: _is_self_call(c, "_process_request"))
+        starts = p.calls(lambda c: _is_self_call(c, ctx.starter))
         pend_w = _writes(p, "_pending_requests")
         overwrites = [e for t, v, e in pend_w if t == f"{PEND}[{K}]" and v == rv]
         for t, v, e in pend_w:
@@ -375,8 +441,8 @@ def check_run(run: Run, prog: Program, ctx: Ctx) -> None:  # noqa: C901
 
 # --------------------------------------------------------------------------------------------- handler
 def check_handler(run: Run, prog: Program, ctx: Ctx) -> None:  # noqa: C901
-    fn = prog.func(f"{ACTOR}._handle_task_completion")
-    proc = prog.func(f"{ACTOR}._process_request")
+    fn = prog.func(f"{ACTOR}.{ctx.handler}")
+    proc = prog.func(f"{ACTOR}.{ctx.starter}")
     run.analysed(fn.qual)
     if len(fn.params) < 4:
         raise AnalysisError(f"{fn.qual}: signature (self, key, request, task) not found")
@@ -407,7 +473,7 @@ def check_handler(run: Run, prog: Program, ctx: Ctx) -> None:  # noqa: C901
             if not g:
                 bad["escape"].append((p, e.node))
             only_exception |= g == "E"
-        starts = p.calls(lambda c: _is_self_call(c, "_process_request"))
+        starts = p.calls(lambda c: _is_self_call(c, ctx.starter))
         dels = [(u(e.node), e) for e in _dels(p, "_processing_tasks")]
         pops = [e for e in _calls_on(p, PROC) if e.node.func.attr == "pop" and u(e.node.func.value) == PROC]  # type: ignore[attr-defined]
         cleared = [e for t, e in dels if t == slot] + [
@@ -481,7 +547,7 @@ def check_handler(run: Run, prog: Program, ctx: Ctx) -> None:  # noqa: C901
 # --------------------------------------------------------------------------------------------- ONLY
 def check_only(run: Run, prog: Program, ctx: Ctx) -> None:
     cls = prog.cls(ACTOR)
-    graph = HelperGraph(cls, ANCHORS + ("__init__",))   # helpers of the constructor belong to the constructor
+    graph = HelperGraph(cls, ctx.anchors + ("__init__",))   # helpers of the constructor belong to the constructor
 
     def home(m: FuncInfo) -> set[str] | None:
         """The anchored functions the code of `m` belongs to (itself, or where it is read into)."""
@@ -492,26 +558,26 @@ def check_only(run: Run, prog: Program, ctx: Ctx) -> None:
         for c in [x for x in ast.walk(m.node) if isinstance(x, ast.Call)]:
             if isinstance(c.func, ast.Attribute) and c.func.attr == "distribute_power":
                 n += 1
-                run.check(home(m) == {"_process_request"} and u(c.func.value) == MANAGER,
+                run.check(home(m) == {ctx.starter} and u(c.func.value) == MANAGER,
                           "C14.ONLY", m.qual, c,
                           "the component manager's distribute_power is invoked outside _process_request: "
                           "a distribution could run without being registered as in flight",
                           node=c, file=m.file)
-            if _is_self_call(c, "_process_request"):
+            if _is_self_call(c, ctx.starter):
                 h = home(m)
-                run.check(h is not None and h <= {"_run", "_handle_task_completion"}, "C14.ONLY", m.qual, c,
+                run.check(h is not None and h <= {"_run", ctx.handler}, "C14.ONLY", m.qual, c,
                           "_process_request is called from somewhere else than the request loop and the "
                           "completion handler", node=c, file=m.file)
-        for who, is_call in graph.refs.get("_process_request", []):
+        for who, is_call in graph.refs.get(ctx.starter, []):
             if who == m.name and not is_call:
-                run.violation("C14.ONLY", m.qual, "self._process_request passed around",
+                run.violation("C14.ONLY", m.qual, f"self.{ctx.starter} passed around",
                               "_process_request is handed out as a callable: it can be invoked outside the "
                               "request loop and the completion handler", node=m.node, file=m.file)
     if n != 1 and not any(v.rule == "C14.ONLY" for v in run.violations):
         raise AnalysisError(f"C14.ONLY: expected one distribute_power call site, found {n}")
     # nobody else touches the two dictionaries
     for m in cls.methods.values():
-        if m.name in ("__init__",) + ANCHORS:
+        if m.name in ("__init__",) + ctx.anchors:
             continue
         touches = any(isinstance(x, ast.Attribute) and x.attr in STATE_ATTRS for x in ast.walk(m.node))
         if home(m) is not None:
@@ -598,6 +664,10 @@ def structural_controls(prog: Program) -> list[tuple[str, str, str, str, str]]: 
     src = mod.source
     cls = prog.cls(ACTOR)
     out: list[tuple[str, str, str, str, str]] = []
+    try:
+        starter, handler = bind_roles(prog)
+    except AnalysisError:
+        starter, handler = STARTER_HINT, HANDLER_HINT
 
     def add(name: str, edits: list[tuple[ast.AST, str]], rule: str) -> None:
         if edits:
@@ -632,7 +702,7 @@ def structural_controls(prog: Program) -> list[tuple[str, str, str, str, str]]: 
                 isinstance(c, ast.Call) and isinstance(c.func, ast.Attribute) and c.func.attr == "result" and not c.args
                 for b in n.body for c in ast.walk(b)):
             last = n.handlers[0].body[-1]
-            word = "return" if m.name == "_handle_task_completion" else "raise"
+            word = "return" if m.name == handler else "raise"
             add(f"{word} in the except arm", [(last, f"{seg(src, last)}\n{ind(last)}{word}")], "C14.NEXT")
             break
     cbs = [n for m, n in every if isinstance(n, ast.Expr) and isinstance(n.value, ast.Call)
@@ -643,7 +713,7 @@ def structural_controls(prog: Program) -> list[tuple[str, str, str, str, str]]: 
     add("older pending request kept",
         [(s, f"{PEND}.setdefault({seg(src, s.targets[0].slice)}, {seg(src, s.value)})") for s in pend_w],  # type: ignore[attr-defined]
         "C14.LATEST")
-    tests = [n for m, n in every if m.name not in ("_handle_task_completion", "_process_request", "__init__")
+    tests = [n for m, n in every if m.name not in (handler, starter, "__init__")
              and isinstance(n, ast.Compare) and len(n.ops) == 1 and isinstance(n.ops[0], (ast.In, ast.NotIn))
              and u(n.comparators[0]) == PROC]
     edits = []
@@ -659,7 +729,7 @@ def structural_controls(prog: Program) -> list[tuple[str, str, str, str, str]]: 
               or (isinstance(n, ast.Expr) and isinstance(n.value, ast.Call) and isinstance(n.value.func, ast.Attribute)
                   and n.value.func.attr == "pop" and u(n.value.func.value) == PROC)]
     add("in-flight marker never cleared", [(s, "pass") for s in clears], "C14.NEXT")
-    keys = [n for m, n in every if m.name not in ("_handle_task_completion", "_process_request", "__init__")
+    keys = [n for m, n in every if m.name not in (handler, starter, "__init__")
             and isinstance(n, ast.Call) and u(n.func) == "frozenset" and len(n.args) == 1
             and isinstance(n.args[0], ast.Attribute) and n.args[0].attr == "component_ids"]
     add("key is not the component set", [(c, "frozenset()") for c in keys], "C14.KEY")
@@ -675,7 +745,7 @@ def structural_controls(prog: Program) -> list[tuple[str, str, str, str, str]]: 
 
 
 def run_rules(run: Run, prog: Program) -> None:
-    ctx = Ctx()
+    ctx = Ctx(prog)
     check_reg(run, prog, ctx)
     check_run(run, prog, ctx)
     check_handler(run, prog, ctx)
